@@ -20,6 +20,7 @@ import NV.Model.Reply
 import NV.Model.CFG
 import NV.Gen.ProxyCFG
 import NV.Lemmas.Pool
+import NV.Lemmas.ReplyName
 namespace NV.C01
 open NV NV.CFG NV.Gen
 
@@ -176,6 +177,41 @@ theorem servfail_shape (q : Query) (hid : q.id < 65536) :
     omega
   split <;> (simp [be16, rd16, byteAt, b8, UInt8.toNat_ofNat']; omega)
 
+
+/-! ### the reply carries the query's ID and question -/
+
+open NV.Spec in
+/-- **C01 (ID and question of locally built replies)**: for EVERY well-formed query (any ID, flags,
+labels of 1..63 bytes without a dot, type, class, records before the OPT record, EDNS options), the
+reply the proxy builds itself when resolution fails (`replyRCode`, also used for NXDOMAIN and empty
+answers) is exactly: the query's ID, QR=1 with the RCODE, one question — the query's name, type and
+class byte for byte — and nothing else. (Labels containing '.' are the recorded finding: the text
+form of the name loses where the label ends.) -/
+theorem local_reply_id_question (m : QueryMsg) (hwf : m.WF) (hdot : ∀ l ∈ m.qname, (46 : UInt8) ∉ l)
+    (rcode : Nat) :
+    ∃ q, parse (encode m) = .done .ok q ∧
+      replyRCode rcode q = be16 m.id ++ be16 (32768 + rcode) ++ be16 1 ++ be16 0 ++ be16 0 ++ be16 0 ++
+        encLabels m.qname ++ be16 m.qtype ++ be16 m.qcls := by
+  refine ⟨_, parse_encode m hwf, ?_⟩
+  have hf := applyOpts_fixed (optsFrom ((front m).length + 11) m.opts) (q0 m (encode m))
+  unfold replyRCode
+  rw [hf.1, hf.2.1, hf.2.2.1, hf.2.2.2]
+  simp only [q0]
+  rw [packName_shown m.qname hwf.qname hdot]
+
+open NV.Spec in
+/-- with `servfail_when_failed`: a failed resolution of such a query is answered with that message -/
+theorem servfail_reply_id_question (m : QueryMsg) (hwf : m.WF) (hdot : ∀ l ∈ m.qname, (46 : UInt8) ∉ l) :
+    ∃ q, parse (encode m) = .done .ok q ∧
+      resolved q .error = be16 m.id ++ be16 (32768 + 2) ++ be16 1 ++ be16 0 ++ be16 0 ++ be16 0 ++
+        encLabels m.qname ++ be16 m.qtype ++ be16 m.qcls := by
+  obtain ⟨q, hq, hr⟩ := local_reply_id_question m hwf hdot 2
+  exact ⟨q, hq, by simpa [resolved] using hr⟩
+
+open NV.Spec in
+example : (⟨7, 256, [[119, 119, 119], [101, 120]], 1, 1, [], 1232, 0, []⟩ : QueryMsg).WF ∧
+    (∀ l ∈ ([[119, 119, 119], [101, 120]] : List Bytes), (46 : UInt8) ∉ l) := by
+  refine ⟨⟨by decide, by decide, by decide, by decide, by decide, by simp, by decide, by decide, by decide, by simp, by decide⟩, by decide⟩
 
 /-! ### buffer ownership: never another client's answer -/
 
